@@ -1,14 +1,13 @@
-\* C25 every sequential program of 5 calls
+\* C25 reply form: every sequential program of 4 calls over the whole alphabet plus opaque replies, both kinds of client
 CONSTANTS
   G = 1
-  N = 5
-  Ops = {"acq1", "acq2", "rel", "qa", "qb", "qc"}
+  N = 4
+  Ops = {"acq1", "acq2", "rel", "qa", "qb", "qc", "qx"}
   Mutex = TRUE
   AutoAcquire = TRUE
   RelRule = FALSE
   Hist = TRUE
-  OnOpaque = {"raw"}
+  OnOpaque = {"raw", "fail"}
   DupOpaque = FALSE
 SPECIFICATION Spec
 INVARIANTS TypeOK OwnAnswer MutexExcl QueryInSession OutShape RelLegal ErrOnlyWhenDead ErrSuffix OpaqueOutcome EmitRow
-
